@@ -4,6 +4,7 @@
 
   Part A  Go -> JavaScript -> Go on scalars, pointers and containers (Set / Get / Export / To* / MarshalJSON)
   Part B  JavaScript -> Go: predicates, and `export` of JSON-like data (structure, Go typing, panic)
+  Part C  Value.Call / Object.Call / Otto.Call against the equivalent in-language call
   Each deviation region used by the driver (Spec.Dev) has a kernel-checked witness at the end.
 -/
 import OttoVerif.C15.Spec
@@ -794,6 +795,59 @@ def wClash : JS :=
   .arr (.cons (.arr (.cons (.arr (.cons (.prim (.int .i64 1)) .nil)) .nil))
        (.cons (.arr (.cons (.arr (.cons (.prim (.str [97])) .nil)) .nil)) .nil))
 example : clash wClash = true ∧ exportV wClash = .panic := by decide                                                -- export_type_clash_panic
+
+
+
+/-! ## Part C: calls -/
+
+/-- Set accepts the value and stores no float32 payload -/
+def OKVal (g : GoVal) : Prop := ∃ j, toValue g = .ok j ∧ NoF32 j
+
+theorem argViews_eq (E : Env) : (args : List GoVal) → (∀ g ∈ args, OKVal g) →
+    argViews E args = Spec.argViews E args
+  | [], _ => rfl
+  | g :: r, h => by
+    obtain ⟨j, hj, hf⟩ := h g (by simp)
+    have hv := (view_eq E g j hj hf).1
+    simp only [argViews, Spec.argViews, hj, Res.bind, hv]
+    rw [argViews_eq E r (fun g' hg' => h g' (by simp [hg']))]
+
+theorem enterThis_eq (E : Env) (g : GoVal) (h : OKVal g) :
+    ((toValue g).map CallThis.val).bind (enterThis E) = Spec.enterThis E (.counterpart g) := by
+  obtain ⟨j, hj, hf⟩ := h
+  have hv := (view_eq E g j hj hf).1
+  simp only [hj, Res.map, Res.bind, Spec.enterThis, ← hv]
+  cases j with
+  | prim v => cases v <;> simp [enterThis, viewJS, Res.map]
+  | f32 x => simp [NoF32] at hf
+  | goObj g' => simp [enterThis, viewJS]
+  | arr es => simp [enterThis, viewJS]
+  | obj ps => simp [enterThis, viewJS]
+
+/-- every `this` a path converts from Go -/
+def pathThis : Path → List GoVal
+  | .valueCall (some g) => [g]
+  | .ottoCallThis _ g => [g]
+  | _ => []
+
+/-- Value.Call, Object.Call and Otto.Call (both forms) hand the callee the same `this` and the same
+    arguments as the equivalent in-language call (`f.call(T, a…)`, `obj.m(a…)`, `f(a…)`), for every
+    argument list. -/
+theorem call_equiv (E : Env) (p : Path) (args : List GoVal)
+    (hthis : ∀ g ∈ pathThis p, OKVal g) (hargs : ∀ g ∈ args, OKVal g) :
+    apiCall E p args = Spec.langCall E p args := by
+  simp only [apiCall, Spec.langCall, argViews_eq E args hargs]
+  congr 1
+  cases p with
+  | valueCall t =>
+    cases t with
+    | none => rfl
+    | some g => exact enterThis_eq E g (hthis g (by simp [pathThis]))
+  | objectCall => rfl
+  | ottoCallNil m => cases m <;> rfl
+  | ottoCallThis m g => exact enterThis_eq E g (hthis g (by simp [pathThis]))
+
+example : OKVal (.ptr (.sc true (.int .int 6))) := ⟨_, rfl, trivial⟩
 
 
 end OttoVerif.C15.Thm
